@@ -49,7 +49,7 @@ impl Property for C14 {
         ]
     }
     fn pbt(&self, tier: Tier) -> PbtCfg {
-        PbtCfg { cases: tier.pick(120_000, 4_000_000), max_len: tier.pick(1500, 5000), shrink_ms: 120_000 }
+        PbtCfg { cases: tier.pick(120_000, 2_000_000), max_len: tier.pick(1500, 5000), shrink_ms: 120_000 }
     }
     fn required_labels(&self) -> Vec<&'static str> {
         vec!["budget_hit_mid", "unrel_dropped_budget", "rel_slice_sent", "budget_below_slice"]
